@@ -260,8 +260,18 @@ def rule_writer_only_in_emit_flush(ctx, rep, rid='G3'):
                 if it['name'] in ('emit', 'flush'):
                     own.add(it['path'])
         bad = []
-        # private helpers that only emit()/flush() call (a `with_writer(|w| ..)` lock helper) belong to them
         from .qmodel import private_region, _fn_owner
+        # an inherent public `fn flush_now(&self)` that does nothing with the writer but flush it is an explicit flush
+        # under another name (the caller asked for it); like flush() it may not be called by the sink's other methods
+        for b in cad.all_bodies:
+            if b.impl_self and type_head(b.impl_self) == adt and b.impl_trait is None and b.def_kind == 'AssocFn' and \
+                    b.j.get('reachable') and b.arg_count == 1 and b.locals[1].lstrip('&').strip() == b.impl_self.strip():
+                reg = [b] + [cad.bodies[p_] for p_ in private_region(cad, [b]) if p_ in cad.bodies]
+                wcalls = [t_ for x in reg for _, t_ in x.calls() if MLW in strip_generics(t_.get('callee_full', '')) or
+                          (t_.get('resolved') or '').startswith('<' + MLW)]
+                if wcalls and all(callee_is(t_, 'as std::io::Write>::flush') for t_ in wcalls):
+                    own.add(b.path)
+        # private helpers that only emit()/flush() call (a `with_writer(|w| ..)` lock helper) belong to them
         region = set(own) | private_region(cad, [cad.bodies[p_] for p_ in own if p_ in cad.bodies])
         for b in cad.all_bodies:
             if b.path in region or _fn_owner(cad, b) in region or b.file.endswith('/test.rs') or '::tests::' in b.path:
@@ -377,14 +387,14 @@ def rule_D3(ctx, rep, rid='D3', methods=('flush', 'stats')):
             caps = []
             for c_ in clos:
                 for n, v in c_[2]:
-                    a = _arc_new_of(v)
+                    a = _arc_new_of(v, weak=True)
                     if a is not None:
                         caps.append(a)
                     v = norm(v)
                     if v[0] == 'adt':
                         # a captured private struct holding the task's state (named task object instead of captures)
                         for _n2, v2 in v[3]:
-                            a = _arc_new_of(v2)
+                            a = _arc_new_of(v2, weak=True)
                             if a is not None:
                                 caps.append(a)
             ok = arc is not None and arc[2] == (('param', 2),) and any(a == arc for a in caps)
@@ -393,7 +403,7 @@ def rule_D3(ctx, rep, rid='D3', methods=('flush', 'stats')):
     rep.ob(rid, 'build-shares-one-arc', ok, b.where(), msg)
 
 
-def _arc_new_of(t):
+def _arc_new_of(t, weak=False):
     """If t is Arc::new(x) possibly through clone/unsize, return the Arc::new call term."""
     if t is None:
         return None
@@ -405,6 +415,8 @@ def _arc_new_of(t):
             t = t[1]
         elif t[0] == 'call' and isinstance(t[1], str) and t[1] == '<alloc::sync::Arc as core::clone::Clone>::clone':
             t = t[2][0]
+        elif weak and t[0] == 'call' and isinstance(t[1], str) and t[1] in ('alloc::sync::Arc::downgrade', '<alloc::sync::Weak as core::clone::Clone>::clone'):
+            t = t[2][0]         # a weak pointer to the same allocation (who keeps it alive is C09's business)
         elif t[0] == 'call' and isinstance(t[1], str) and t[1].endswith('alloc::sync::Arc::new'):
             return t
         else:
